@@ -397,6 +397,7 @@ CALLS = [
     "rec(x, 1, True)", "rec(x, 2.0, 2)", "rec(x, 0, k=False)", "rec(x, True, 1)", "rec(x, 1.0, 1, 1, True)", "rec(x, 'a', \"a\")", "rec(rec(x, 1), True)",
     "rec(x, 'a  b')", "rec(x, 'a\tb ')", "rec(x, ' a ', k=\"  \")", "rec(x, 'A   b', 'a b')",
     "np.asarray(x)", "rec(np.asarray(x), 2)", "I(np.asarray(x) * z)",
+    "rec(x, 9007199254740993)", "rec(x, k=18014398509481985)", "I(x + 9007199254740993 - 9007199254740992)", "rec(x, 0.1234567890123456789)", "rec(x, 100000000000000000000)",
     "rec(x, 2, 3, 4, 5)", "rec(x, 0.5, .5)", "rec(-x, +z)", "rec(x, k=z ** 2)", "rec(x, -2)", "rec(x, - 2)", "np.power(x, 2)", "I(np.maximum(x, z) - np.minimum(x, z))",
     "rec(x > 1, z <= 2)", "rec(x == 2.0)", "rec(x != z, x < z)", "rec(x, 'a b')", "rec(x, 'a,b)')", "rec( x ,k = 3 )", "rec(x,k=3)",
 ]
